@@ -83,11 +83,16 @@ pub fn run(sc: &Value, id: usize, out: Out) {
     let steps = sc["steps"].as_array().cloned().unwrap_or_default();
     let faults = fault_plan(sc.get("faults").unwrap_or(&Value::Null));
     let n = steps.len();
+    let sweep = sc.get("faultsweep").and_then(|v| v.as_u64()).unwrap_or(0) as usize; // max size of the fault position subsets
     let mut pre = tree_json(&t, q);
     let record_all = sc.get("all").and_then(|v| v.as_bool()).unwrap_or(true);
     for (j, st) in steps.iter().enumerate() {
         let last = j + 1 == n;
         let op = st["op"].as_str().unwrap_or("");
+        if last && sweep > 0 {
+            fault_sweep(&t, st, &pre, sweep, id, j, out);
+            return;
+        }
         let plan = if last { faults.clone() } else { Vec::new() };
         let before = t.clone();
         verif::start(plan.clone());
@@ -129,5 +134,56 @@ pub fn run(sc: &Value, id: usize, out: Out) {
             }
         }
         if record_all || last { out(ev); }
+    }
+}
+
+/// C11: runs the step fault-free to learn the number N of LP calls, then once per fault plan over all subsets of
+/// call positions of size <= max_subset and all fault kinds (capped), one event per plan.
+fn fault_sweep(t0: &AffTree<2>, st: &Value, pre: &Value, max_subset: usize, id: usize, step: usize, out: Out) {
+    let q = 1.0;
+    let op = st["op"].as_str().unwrap_or("");
+    let mut base = t0.clone();
+    verif::start(Vec::new());
+    let r0 = guarded(|| apply_step(&mut base, st));
+    let calls0 = verif::stop();
+    if r0.is_err() {
+        return; // the fault-free step panics: reported by the ordinary history scripts
+    }
+    let nofault = tree_json(&base, q);
+    let n = calls0.len();
+    let kinds = [Fault::Error, Fault::Unbounded, Fault::Perturbed, Fault::FarOff];
+    let mut plans: Vec<Vec<(usize, Fault)>> = Vec::new();
+    for i in 0..n {
+        for k in kinds { plans.push(vec![(i, k)]); }
+    }
+    if max_subset >= 2 {
+        for i in 0..n { for j in (i + 1)..n { for k1 in kinds { for k2 in kinds { plans.push(vec![(i, k1), (j, k2)]); } } } }
+    }
+    if max_subset >= 3 {
+        // all positions at once, one kind
+        for k in kinds { plans.push((0..n).map(|i| (i, k)).collect()); }
+    }
+    let cap = 400;
+    let stride = if plans.len() > cap { plans.len() / cap + 1 } else { 1 };
+    for (pi, plan) in plans.iter().enumerate() {
+        if pi % stride != 0 { continue; }
+        let mut t = t0.clone();
+        verif::start(plan.clone());
+        let r = guarded(|| apply_step(&mut t, st));
+        let calls = verif::stop();
+        let mut ev = json!({"fam": "afftree", "sc": id, "step": step, "first": true, "k": 2, "q": 1, "mode": "history", "op": op, "variant": "",
+                            "pre": pre.clone(), "aff": st.get("aff").cloned().unwrap_or(none()), "exp": none(), "faulty": true,
+                            "plan": plan.iter().map(|(i, f)| json!([i, format!("{:?}", f)])).collect::<Vec<_>>(),
+                            "lp": lp_json(&calls, q), "last": true, "n_lp_faultfree": n,
+                            "nofault": {"res": "ok", "post": nofault.clone()}, "second": none(), "perf": none()});
+        match r {
+            Ok((rhs_b, rhs_a, _)) => {
+                ev["res"] = json!("ok"); ev["rhs"] = rhs_b; ev["rhs_after"] = rhs_a; ev["grid"] = none(); ev["post"] = tree_json(&t, q);
+            }
+            Err(_) => {
+                ev["res"] = json!("panic"); ev["rhs"] = none(); ev["rhs_after"] = none(); ev["grid"] = none(); ev["post"] = none();
+            }
+        }
+        out(ev);
     }
 }
